@@ -95,6 +95,13 @@ func (vc *VC) describe(plan *replayPlan, env *SpecEnv, v Val, path string, depth
 			fv := Val{t: app(vc.te.fieldSel(v.typ, i), v.t), typ: t.Field(i).Type()}
 			vc.describe(plan, env, fv, path+"."+t.Field(i).Name(), depth)
 		}
+	case *types.Interface:
+		// dynamic value of an interface: reproduced when it holds a string, an int64 or a float64
+		strT := types.Typ[types.String]
+		plan.items = append(plan.items, modelItem{Path: path, Term: eq(app("i_tag", v.t), fmt.Sprint(vc.te.tagOf(strT))), Kind: "iface-is-string"})
+		plan.items = append(plan.items, modelItem{Path: path, Term: vc.te.unbox(strT, app("i_val", v.t)), Kind: "iface-string"})
+		plan.items = append(plan.items, modelItem{Path: path, Term: eq(app("i_tag", v.t), fmt.Sprint(vc.te.tagOf(types.Typ[types.Int64]))), Kind: "iface-is-int64"})
+		plan.items = append(plan.items, modelItem{Path: path, Term: app("i_val", v.t), Kind: "iface-int64"})
 	case *types.Slice:
 		ln := app("s_len", v.t)
 		plan.items = append(plan.items, modelItem{Path: path, Term: ln, Kind: "len", Go: types.TypeString(v.typ, nil)})
@@ -218,6 +225,11 @@ func vrSet(root any, path string, val any) {
 func vrSetLen(root any, path string, n int) {
 	v := vrAt(root, path)
 	v.Set(reflect.MakeSlice(v.Type(), n, n))
+}
+
+func vrSetIface(root any, path string, val any) {
+	v := vrAt(root, path)
+	v.Set(reflect.ValueOf(val))
 }
 
 func vrSetNil(root any, path string) {
@@ -447,6 +459,7 @@ func (e *Engine) genReplayTest(vc *VC, plan *replayPlan, post *postInfo) (string
 		return false
 	}
 	lens := map[string]int{}
+	ifaceKind := map[string]bool{}
 	for _, it := range plan.items {
 		root, rest := splitRoot(it.Path)
 		if underNil(it.Path) || it.Val == "" {
@@ -459,6 +472,9 @@ func (e *Engine) genReplayTest(vc *VC, plan *replayPlan, post *postInfo) (string
 				continue
 			}
 			n, _ := strconv.Atoi(lit)
+			if beyondLen(it.Path, lens) {
+				continue // a slice inside an element that does not exist in this model
+			}
 			if n > replayElems || n < 0 {
 				return "", false
 			}
@@ -471,6 +487,23 @@ func (e *Engine) genReplayTest(vc *VC, plan *replayPlan, post *postInfo) (string
 			}
 		case "nil":
 			// nil pointers inside structures stay zero
+		case "iface-is-string", "iface-is-int64":
+			ifaceKind[it.Path+"|"+strings.TrimPrefix(it.Kind, "iface-is-")] = it.Val == "true"
+		case "iface-string", "iface-int64":
+			want := strings.TrimPrefix(it.Kind, "iface-")
+			if !ifaceKind[it.Path+"|"+want] || rest == "" {
+				continue
+			}
+			it2 := it
+			it2.Kind = map[string]string{"string": "string", "int64": "int"}[want]
+			lit, ok := goLiteral(it2)
+			if !ok {
+				continue
+			}
+			if want == "int64" {
+				lit = "int64(" + lit + ")"
+			}
+			fmt.Fprintf(&body, "\tvrSetIface(%s, %q, %s)\n", root, rest, lit)
 		default:
 			// element beyond the slice length?
 			if i := strings.LastIndex(it.Path, "["); i >= 0 {
